@@ -139,22 +139,45 @@ func H_C17_order_independent_construction() {
 	verifAssert(a.TotalVotingPower() == b.TotalVotingPower(), "same-total")
 }
 
-// Add / Update / Remove keep the slice sorted, duplicate-free, and reset caches.
-//verif:opt unwind=10
+// saturating reference sum written without the code's helpers
+func c17RefTotal(vals []*Validator) int64 {
+	var t int64
+	for _, v := range vals {
+		if v.VotingPower > math.MaxInt64-t {
+			return math.MaxInt64
+		}
+		t += v.VotingPower
+	}
+	return t
+}
+
+// Add / Update / Remove keep the slice sorted and duplicate-free and leave no
+// stale cache behind: total power and proposer are those of a freshly built
+// set with the same members - for all powers, including ones whose sum saturates.
+//verif:opt unwind=10 split=12 thorough.split=16
 func H_C17_add_update_remove() {
-	// present addresses are a symbolic subset of {1,2,3}; the operand address is symbolic in 0..4
+	nmax := 2
+	if verifThorough() {
+		nmax = 3
+	}
+	sel := verifCase(3 << uint(nmax)) // operation x membership subset
+	op := sel % 3
+	subset := sel / 3
+	// present addresses are a subset of {1,2,3}; the operand address is symbolic in 0..4
 	var vals []*Validator
-	for i := 0; i < 3; i++ {
-		if verifNondetBool() {
+	for i := 0; i < nmax; i++ {
+		if subset&(1<<uint(i)) != 0 {
 			p := verifNondetInt64()
-			verifAssume(p >= 1 && p <= 1<<40)
+			verifAssume(p >= 1)
 			vals = append(vals, &Validator{Address: []byte{byte(i + 1)}, VotingPower: p})
 		}
 	}
 	vs := &ValidatorSet{Validators: vals}
+	// both caches are populated, as they are after NewValidatorSet / a rotation
 	if len(vals) > 0 {
-		vs.IncrementAccum(1)
+		vs.Proposer = vals[verifCase(len(vals))]
 	}
+	oldProposer := vs.Proposer
 	_ = vs.TotalVotingPower()
 	ab := verifNondetByte()
 	verifAssume(ab <= 4)
@@ -166,42 +189,34 @@ func H_C17_add_update_remove() {
 		}
 	}
 	np := verifNondetInt64()
-	verifAssume(np >= 1 && np <= 1<<40)
+	verifAssume(np >= 1)
 	before := len(vs.Validators)
-	var sumBefore int64
-	for _, v := range vs.Validators {
-		sumBefore += v.VotingPower
-	}
-	var oldPower int64
-	for _, v := range vs.Validators {
-		if v.Address[0] == ab {
-			oldPower = v.VotingPower
-		}
-	}
-	op := verifCase(3)
 	wantLen := before
-	wantSum := sumBefore
+	changed := false
 	switch op {
 	case 0:
 		ok := vs.Add(&Validator{Address: addr, VotingPower: np})
 		verifAssert(ok == !present, "add-iff-absent")
+		changed = ok
 		if ok {
 			wantLen++
-			wantSum += np
 		}
 	case 1:
 		ok := vs.Update(&Validator{Address: addr, VotingPower: np})
 		verifAssert(ok == present, "update-iff-present")
+		changed = ok
 		if ok {
-			wantSum += np - oldPower
+			_, v := vs.GetByAddress(addr)
+			verifAssert(v != nil && v.VotingPower == np, "updated-power")
 		}
 	case 2:
 		rv, ok := vs.Remove(addr)
 		verifAssert(ok == present, "remove-iff-present")
+		changed = ok
 		if ok {
 			verifAssert(rv != nil && rv.Address[0] == ab, "removed-the-one")
 			wantLen--
-			wantSum -= oldPower
+			verifAssert(!vs.HasAddress(addr), "removed-is-gone")
 		}
 	}
 	verifReach("op-done")
@@ -209,16 +224,14 @@ func H_C17_add_update_remove() {
 	for i := 1; i < len(vs.Validators); i++ {
 		verifAssert(bytes.Compare(vs.Validators[i-1].Address, vs.Validators[i].Address) < 0, "sorted-unique")
 	}
-	verifAssert(vs.TotalVotingPower() == wantSum, "total-power-recomputed")
-	if len(vs.Validators) > 0 {
+	verifAssert(vs.TotalVotingPower() == c17RefTotal(vs.Validators), "total-power-is-that-of-a-fresh-set")
+	if !changed {
+		verifAssert(vs.Proposer == oldProposer, "rejected-op-keeps-proposer")
+	} else if len(vs.Validators) > 0 {
+		// a changed membership must not keep the stale proposer cache
 		p := vs.GetProposer()
-		has := false
-		for _, v := range vs.Validators {
-			if bytes.Equal(v.Address, p.Address) {
-				has = true
-			}
-		}
-		verifAssert(has, "proposer-is-member")
+		fresh := &ValidatorSet{Validators: vs.Validators}
+		verifAssert(bytes.Equal(p.Address, fresh.findProposer().Address), "proposer-is-that-of-a-fresh-set")
 	}
 }
 
